@@ -6,8 +6,10 @@ package main
 import (
 	"fmt"
 	"go/ast"
+	"go/constant"
 	"go/token"
 	"go/types"
+	"regexp"
 	"sort"
 	"strconv"
 	"strings"
@@ -19,7 +21,9 @@ type sqlTok struct {
 	text string
 }
 
-func sqlLex(s string) []sqlTok {
+func sqlLex(s string) []sqlTok { return sqlLexMode(s, false) }
+
+func sqlLexMode(s string, tolerant bool) []sqlTok {
 	var out []sqlTok
 	rs := []rune(s)
 	for i := 0; i < len(rs); {
@@ -58,9 +62,15 @@ func sqlLex(s string) []sqlTok {
 				out = append(out, sqlTok{"op", two})
 				i += 2
 			default:
-				if strings.ContainsRune("(),=<>+", c) {
+				if c == '%' && i+1 < len(rs) && (rs[i+1] == 'd' || rs[i+1] == 's') {
+					// a fmt verb filled in by Sprintf: a placeholder
+					out = append(out, sqlTok{"par", ""})
+					i += 2
+				} else if strings.ContainsRune("(),=<>+", c) {
 					out = append(out, sqlTok{"op", string(c)})
 					i++
+				} else if tolerant {
+					return append(out, sqlTok{"eof", ""})
 				} else {
 					fail("sql: unexpected character %q in %q", string(c), s)
 				}
@@ -179,17 +189,17 @@ func (p *sqlParser) cmp() string {
 			l = fmt.Sprintf("(.ne %s %s)", l, p.sum())
 		case p.isOp("<"):
 			p.pos++
-			l = fmt.Sprintf("(.lt %s %s)", l, p.sum())
+			l = fmt.Sprintf("(.lt %s %s)", l, p.cmpRhs(l))
 		case p.isOp("<="):
 			p.pos++
-			l = fmt.Sprintf("(.le %s %s)", l, p.sum())
+			l = fmt.Sprintf("(.le %s %s)", l, p.cmpRhs(l))
 		case p.isOp(">"):
 			p.pos++
-			r := p.sum()
+			r := p.cmpRhs(l)
 			l = fmt.Sprintf("(.lt %s %s)", r, l)
 		case p.isOp(">="):
 			p.pos++
-			r := p.sum()
+			r := p.cmpRhs(l)
 			l = fmt.Sprintf("(.le %s %s)", r, l)
 		case p.isKw("not"):
 			p.pos++
@@ -210,6 +220,17 @@ func (p *sqlParser) cmp() string {
 		}
 	}
 }
+// cmpRhs parses the right-hand side of a comparison whose left side is `l`; a placeholder there is named after the column compared.
+func (p *sqlParser) cmpRhs(l string) string {
+	saved := p.role
+	if strings.HasPrefix(l, "(.col .") {
+		p.role = "where." + strings.TrimSuffix(strings.TrimPrefix(l, "(.col ."), ")")
+	}
+	r := p.sum()
+	p.role = saved
+	return r
+}
+
 func (p *sqlParser) sum() string {
 	l := p.cat()
 	for p.isOp("+") {
@@ -241,6 +262,9 @@ func (p *sqlParser) prim() string {
 			if n > p.nextPar {
 				p.nextPar = n
 			}
+		}
+		if p.args == nil {
+			return fmt.Sprintf("(.par %q)", p.roleName(n))
 		}
 		if n < 1 || n > len(p.args) {
 			fail("sql: placeholder ?%d has no argument (%d given) in %q", n, len(p.args), p.src)
@@ -413,6 +437,14 @@ func goArgTerm(e ast.Expr, body *ast.BlockStmt) string {
 	return "\x00"
 }
 
+// constString: the value of an expression that is a string constant (a literal, a named constant, a concatenation of those).
+func constString(e ast.Expr) (string, bool) {
+	if tv, ok := info.Types[e]; ok && tv.Value != nil && tv.Value.Kind() == constant.String {
+		return constant.StringVal(tv.Value), true
+	}
+	return "", false
+}
+
 type sqlLit struct {
 	text string
 	plus bool // appended with +=
@@ -436,14 +468,7 @@ func genSql(funcs map[string]*fn, names []string) string {
 			l := strings.ToLower(strings.TrimSpace(s))
 			return (strings.HasPrefix(l, "update") || strings.HasPrefix(l, "insert")) && strings.Contains(l, "documents")
 		}
-		litOf := func(e ast.Expr) (string, bool) {
-			bl, ok := e.(*ast.BasicLit)
-			if !ok || bl.Kind != token.STRING {
-				return "", false
-			}
-			s, err := strconv.Unquote(bl.Value)
-			return s, err == nil
-		}
+		litOf := constString
 		ast.Inspect(f.decl.Body, func(nd ast.Node) bool {
 			switch t := nd.(type) {
 			case *ast.AssignStmt:
@@ -521,6 +546,49 @@ func genSql(funcs map[string]*fn, names []string) string {
 				index = append(index, fmt.Sprintf("(%q, %q)", name, kind))
 			}
 		}
+	}
+	// WHERE clauses of every statement that reads or deletes from `documents` (placeholders named by the column they are compared with)
+	reWhere := regexp.MustCompile(`(?i)from\s+documents\s+where\s+`)
+	for _, n := range names {
+		f := funcs[n]
+		count := 0
+		ast.Inspect(f.decl.Body, func(nd ast.Node) bool {
+			ex, isExpr := nd.(ast.Expr)
+			if !isExpr {
+				return true
+			}
+			str, ok := constString(ex)
+			if !ok {
+				return true
+			}
+			low := strings.ToLower(strings.TrimSpace(str))
+			if strings.HasPrefix(low, "update") || strings.HasPrefix(low, "insert") {
+				return false
+			}
+			defer func() {}()
+			for _, loc := range reWhere.FindAllStringIndex(str, -1) {
+				rest := str[loc[1]:]
+				p := &sqlParser{toks: sqlLexMode(rest, true), src: rest}
+				e := p.expr()
+				var order []string
+				if p.isKw("order") {
+					p.pos++
+					p.expectKw("by")
+					for {
+						order = append(order, p.col())
+						if !p.isOp(",") {
+							break
+						}
+						p.pos++
+					}
+				}
+				name := fmt.Sprintf("%s_WHERE_%d", strings.ReplaceAll(n, ".", "_"), count)
+				count++
+				fmt.Fprintf(&sb, "/-- `%s`: … FROM documents WHERE %s -/\ndef %s : Select :=\n  { cond := %s,\n    orderBy := [%s] }\n\n", n, strconv.Quote(strings.Join(strings.Fields(rest), " ")), name, e, strings.Join(order, ", "))
+				index = append(index, fmt.Sprintf("(%q, \"Select\")", name))
+			}
+			return false // the parts of a constant expression are not statements of their own
+		})
 	}
 	// every write statement that the fact extractor saw must have been parsed here
 	sb.WriteString("/-- The statements translated above. -/\ndef index : List (String × String) := [\n  " + strings.Join(index, ",\n  ") + "]\n\nend Rosmar.Gen.Sql\n")
